@@ -347,6 +347,19 @@ func SuccessReturns(fn *ssa.Function) []*ssa.Return {
 			continue
 		}
 		v := r.Results[errIdx]
+		// named result spilled to a cell (function with defers): the value
+		// returned is the one stored to the cell just before, in this block
+		if ld, ok := v.(*ssa.UnOp); ok && ld.Op == token.MUL {
+			if cell, ok := ld.X.(*ssa.Alloc); ok {
+				instrs := r.Block().Instrs
+				for i := len(instrs) - 1; i >= 0; i-- {
+					if st, ok := instrs[i].(*ssa.Store); ok && st.Addr == ssa.Value(cell) {
+						v = st.Val
+						break
+					}
+				}
+			}
+		}
 		if IsNilConst(v) {
 			out = append(out, r)
 			continue
